@@ -3,3 +3,4 @@ open O2P.Diagram
 #print axioms parse_ok_tail
 #print axioms parse_ok_core
 #print axioms runs_types
+#print axioms grammar_complete
